@@ -75,6 +75,10 @@ func c13ObjectProgram(rt *rapid.T) (string, []string) {
 		// names of which one is a proper prefix of another, in either script, and names differing in the last character only
 		keys = []string{"na", "n", "nam", "name", "ক", "ক১", "নাম", "নামের_তালিকা"}
 	}
+	if rapid.IntRange(0, 4).Draw(rt, "numberWordKeys") == 0 {
+		// names that spell special numbers or look like exponents: they are names, ordered like any other
+		keys = []string{"nan", "inf", "NaN", "Inf", "infinity", "NAN", "e1", "Infinity"}
+	}
 	var order []string
 	// a property name may be written more than once in one literal: every
 	// initialiser still runs, in source order, and the last one gives the value
